@@ -1,7 +1,7 @@
 (* C16 — hierarchical equations: complete index set, consistent links, valid states.
    Statements only; proofs in Proofs/C16.v and Proofs/C16rhs.v, model in Model/C16.v. *)
 From Coq Require Import ZArith List Bool Arith.
-From QV Require Import Base.Alg Base.Sums Base.Mat Base.Taylor Model.C16 Proofs.C16 Proofs.C16rhs.
+From QV Require Import Base.Alg Base.Sums Base.Mat Base.Taylor Model.C16 Proofs.C16 Proofs.C16rhs Proofs.C16count.
 Import ListNotations.
 
 (* level j of the generated hierarchy holds every multi-index over N baths of total order j, each once:
@@ -11,6 +11,18 @@ Theorem c16_levels_complete_and_duplicate_free : forall N depth j, (j <= depth)%
   forall m, In m (nth j (gen_indices N depth) []) <-> (length m = N /\ list_sum m = j).
 Proof. intros N depth j Hj. exact (indices_complete_nodup N depth j Hj). Qed.
 Print Assumptions c16_levels_complete_and_duplicate_free.
+
+(* the binomial level count: level j has cnt N j entries, where cnt has the boundary values and obeys the Pascal rule that
+   characterise the binomial coefficients C(N+j-1, j) (cnt (S N) 0 = 1, cnt 0 (S k) = 0, cnt (S N) (S k) = cnt (S N) k + cnt N (S k)) *)
+Theorem c16_level_sizes_are_binomial : forall N depth j, (j <= depth)%nat ->
+  length (nth j (gen_indices N depth) []) = cnt N j /\
+  cnt 0 0 = 1%nat /\ (forall k, cnt 0 (S k) = 0%nat) /\ (forall M, cnt (S M) 0 = 1%nat) /\
+  (forall M k, cnt (S M) (S k) = (cnt (S M) k + cnt M (S k))%nat).
+Proof.
+  intros N depth j Hj. split; [apply level_count; exact (indices_complete_nodup N depth j Hj)|].
+  split; [reflexivity|]. split; [intros k; reflexivity|]. split; [exact cnt_0|exact cnt_pascal].
+Qed.
+Print Assumptions c16_level_sizes_are_binomial.
 
 Theorem c16_table_complete_once_by_levels : forall N depth,
   (forall m, In m (hinds N depth) <-> (length m = N /\ (list_sum m <= depth)%nat)) /\
